@@ -61,9 +61,10 @@ Definition jac_tol (theta : Q) : Q :=
 
 (* inverse Jacobian, generic branch: theta = arccos c carries the rounding dc ~ 1e-16 of c amplified by 1/sin, and the entries
    w_i/(4 s^2) (theta c / s - 1) amplify it again: absolute error k_i c dc / (2 s^3) (2e-4 at an angle of 6e-5 rad; measured).
-   Only visible when arccos is evaluated exactly (real_acos); allowed as an absolute term. *)
-Definition inv_jac_extra (halfturn : bool) (s : Q) : Q :=
-  if halfturn then 0 else (4 # 10000000000000000) / (s * s * s).
+   Only visible when arccos is evaluated exactly, so it is granted only to the real_acos cases; all other cases feed the
+   implementation's own angle to the model and are compared at 1e-9. *)
+Definition inv_jac_extra (real_acos halfturn : bool) (s : Q) : Q :=
+  if halfturn || negb real_acos then 0 else (4 # 10000000000000000) / (s * s * s).
 Definition fl_close_plus (extra : Q) (m : Q) (o : fl) : bool :=
   match o with
   | Fin q => Qle_bool (Qabs (m - q)) (tol * Qmax' 1 (Qmax' (Qabs m) (Qabs q)) + extra)
@@ -122,7 +123,7 @@ Definition check_case (c : case) : bool :=
           end &&
           match j with
           | None => nat_list_eqb jsh [] && match jvals with [] => true | _ => false end
-          | Some jm => nat_list_eqb jsh [9; 3]%nat && list_close_plus (inv_jac_extra halfturn s) (concat jm) jvals
+          | Some jm => nat_list_eqb jsh [9; 3]%nat && list_close_plus (inv_jac_extra real_acos halfturn s) (concat jm) jvals
           end
       | _, _ => false
       end
